@@ -414,7 +414,9 @@ func init() {
 			}
 			for _, a := range accepted {
 				for _, hf := range bmx.Hostile {
-					vs := []string{a + ", " + hf, a + "," + hf, hf + ", " + a, a + " " + hf, hf + " " + a, a + hf, a + "/" + hf, a + ", " + a + " " + hf, a + hf + a, a + hf + " " + a}
+					vs := []string{a + ", " + hf, a + "," + hf, hf + ", " + a, a + " " + hf, hf + " " + a, a + hf, a + "/" + hf, a + ", " + a + " " + hf, a + hf + a, a + hf + " " + a,
+						// a component that a second separator splits, with the fragment after it
+						a + "/" + a + " " + hf, a + "/" + a + " " + hf + " " + a, a + " / " + a + " " + hf, a + "," + a + " " + hf + " " + a}
 					if i := strings.Index(a, "url("); i >= 0 {
 						if j := strings.Index(a[i:], ")"); j > 0 {
 							vs = append(vs, a[:i+j]+hf+a[i+j:])
